@@ -292,6 +292,27 @@ def snapshot(b):
     return dict(b.attrs)
 
 
+def deep_snapshot(b):
+    """The builder's attributes and, one level down, the fields of the objects they hold (the options object is
+    shared by every later flight: a flight must not reconfigure it)."""
+    return {k: dict(v.attrs) for k, v in b.attrs.items() if isinstance(v, Obj)}
+
+
+def deep_changes(b, deep):
+    out = []
+    for k, fields in deep.items():
+        v = b.attrs.get(k)
+        if not isinstance(v, Obj):
+            continue
+        for f, old in fields.items():
+            new = v.attrs.get(f)
+            same = new is old or (z3.is_expr(new) and z3.is_expr(old) and z3.eq(new, old)) or \
+                (not z3.is_expr(new) and not z3.is_expr(old) and type(new) is type(old) and new == old)
+            if not same:
+                out.append(f'{k}.{f}: {old!r} -> {new!r}')
+    return out
+
+
 def one_flight(h, b, tag, given_mass_choice=True, slim=False):
     w = World(h, tag, slim=slim)
     h.I.hooks['world'] = w
@@ -316,6 +337,7 @@ def fly_unit(h):
     loop_contract(h, tol)
     tag_residual(h)
     before = snapshot(b)
+    deep = deep_snapshot(b)
     try:
         w, out = one_flight(h, b, 'f1')
     except PoisonRead as p:
@@ -326,6 +348,8 @@ def fly_unit(h):
     same = all(k in b.attrs and b.attrs[k] is v for k, v in before.items())
     h.ensure('constructor-time-state-unchanged', same,
              note='changed: ' + repr([k for k, v in before.items() if b.attrs.get(k) is not v]))
+    changed = deep_changes(b, deep)
+    h.ensure('options-and-other-shared-objects-not-reconfigured', not changed, note='changed: ' + '; '.join(changed))
     if out[0] == 'raise':
         e = out[1]
         if w.raised:
@@ -432,6 +456,22 @@ def replay(payload):
                         break
                 if t.starting_mass != f0.starting_mass:
                     problems.append(f'{m.label}: starting_mass differs from a fresh builder')
+        # a flight with a caller-supplied starting mass must not reconfigure the builder for the flights after it
+        ib = LegacyBuilder(options=Options(iterate_mass=True, use_weather=False))
+        ref = LegacyBuilder(options=Options(iterate_mass=True, use_weather=False)).fly(pm, missions[1])
+        try:
+            ib.fly(pm, missions[0], starting_mass=float(ref.starting_mass))
+        except Exception:   # noqa
+            pass
+        try:
+            after = ib.fly(pm, missions[1])
+            for name in ('aircraft_mass', 'fuel_mass', 'flight_time'):
+                if not np.array_equal(getattr(after, name), getattr(ref, name)):
+                    problems.append(f'{missions[1].label}: after a flight with a given starting mass, {name} differs from a fresh builder '
+                                    f'(iterate_mass now {ib.options.iterate_mass})')
+                    break
+        except Exception as e:   # noqa
+            problems.append(f'flight after one with a given starting mass failed: {type(e).__name__}: {e}')
         # weather-enabled flights rejected before any weather file was opened: missing weather for the departure date,
         # and an out-of-envelope state at the first climb point
         wb = LegacyBuilder(options=Options(iterate_mass=False, use_weather=True))
